@@ -13,6 +13,7 @@ R1.2 termination.  The interpreter accepts only acyclic local calls and the thre
 R1.3 no reachable abort/exit, no non-Rust ABI call.
 R1.4 hand-written Debug/Display impls neither panic nor return an error of their own (format!,
      to_string and println! panic on such an error); see rules/fmtimpls.py.
+R1.5 `From<..> for Error` impls (run by `?` on every rejected line) are total on arbitrary arguments.
 Census: the obligation sites met must not fall below the floors counted by hand.
 """
 from __future__ import annotations
@@ -116,6 +117,14 @@ def run(ctx, chk):
             chk.ob(False, "C01/manual-fmt/%s/%s/%s" % (kind, tyname, key), "[%s] %s" % (cfg, msg))
         if not findings:
             chk.ob(True, sample={"config": cfg, "fmt_impls": nfmt, "hand_written": nman, "status": "no panic, no error of their own"})
+        # R1.5: conversions into the error type, run by `?` on every rejected line
+        from .fmtimpls import analyse_error_conversions
+        nconv, cfind = analyse_error_conversions(facts)
+        for (kind, src, key, msg) in cfind:
+            chk.ob(False, "C01/error-conversion/%s/%s/%s" % (kind, src, key), "[%s] %s" % (cfg, msg))
+        if not cfind:
+            chk.ob(True, sample={"config": cfg, "error_conversions": nconv, "status": "total on arbitrary arguments"})
+        chk.ob(nconv >= 2, "C01/error-conversion/floor/%d" % nconv, "[%s] only %d conversions into the error type found" % (cfg, nconv))
         for (root, I, npaths) in analyse(cfg, facts, inv):
             nleaf = finish_leaves(I)
             sites = 0
